@@ -32,7 +32,10 @@ def main():
     for f in ctx.obligation_failures:
         ctx.say(f'[{pid}] BROKEN OBLIGATION: {f["what"]} :: {f["detail"][:400]}')
 
-    scale = 1 if ok else getattr(mod, 'SEARCH_SCALE', 4)
+    # the thorough tier multiplies every generator count (on top of the harness's own thorough settings) so that each property gets minutes, not seconds
+    THOROUGH_SCALE = {'C01': 2, 'C02': 4, 'C03': 3, 'C06': 3, 'C07': 2, 'C09': 3, 'C10': 4, 'C11': 8, 'C13': 4, 'C14': 8, 'C15': 3, 'C17': 6, 'C18': 4, 'C19': 3, 'C20': 10}
+    base_scale = THOROUGH_SCALE.get(pid, 1) if tier == 'thorough' else 1
+    scale = base_scale if ok else base_scale * getattr(mod, 'SEARCH_SCALE', 4)
     try:
         res = mod.correspond(ctx, scale)
     except Exception as ex:
